@@ -48,6 +48,12 @@ def cases(tier, seed, prop):
                 if subset[0]: gc.setdefault(ety, {}).setdefault(field_, {})[key] = planted(kind, key, 'gtype')
                 if subset[1]: gc.setdefault(esy, {}).setdefault(field_, {})[key] = planted(kind, key, 'gsyntax')
                 if subset[2]: c.setdefault(field_, {})[key] = planted(kind, key, 'user')
+            if sy in ('unknown-x', 'unknown-y') and not subset[1]:
+                # a section for the default syntax of the type (html / css) is somebody else's section
+                dsy = 'html' if ety == 'markup' else 'css'
+                for kind, key in probes:
+                    field_ = {'o': 'options', 'sn': 'snippets', 'vr': 'variables'}[kind]
+                    gc.setdefault(dsy, {}).setdefault(field_, {})[key] = planted(kind, key, 'gsyntax').replace('gsyntax', 'foreign') if isinstance(planted(kind, key, 'gsyntax'), str) else planted(kind, key, 'gsyntax')
             out.append({'c': c, 'gc': gc, 'probes': probes, 'subset': subset, 'g': 'layers'})
             if all(subset):
                 # two layers that say the same (whole tables equal by value) with a layer between them that says something else
